@@ -65,13 +65,13 @@ type mockConn struct {
 
 type mockDH struct{ id int }
 
-func (*mockDH) InitDataProcessing(api.WebsocketDataReaderInterface)  {}
-func (*mockDH) WriteMessageToWebsocketConnection([]byte) error       { return nil }
-func (*mockDH) CloseDataConnection(int, string)                       {}
-func (*mockDH) IsDataConnectionClosed() (bool, error)                { return false, nil }
-func (c *mockConn) DataHandler() api.WebsocketDataWriterInterface    { return c.dh }
-func (c *mockConn) RemoteSKI() string                                { return c.ski }
-func (c *mockConn) ApprovePendingHandshake()                         { c.log.add(fmt.Sprintf("approve:%d", c.id)) }
+func (*mockDH) InitDataProcessing(api.WebsocketDataReaderInterface) {}
+func (*mockDH) WriteMessageToWebsocketConnection([]byte) error      { return nil }
+func (*mockDH) CloseDataConnection(int, string)                     {}
+func (*mockDH) IsDataConnectionClosed() (bool, error)               { return false, nil }
+func (c *mockConn) DataHandler() api.WebsocketDataWriterInterface   { return c.dh }
+func (c *mockConn) RemoteSKI() string                               { return c.ski }
+func (c *mockConn) ApprovePendingHandshake()                        { c.log.add(fmt.Sprintf("approve:%d", c.id)) }
 func (c *mockConn) CloseConnection(safe bool, code int, reason string) {
 	c.log.add(fmt.Sprintf("close:%d:%s:%d", c.id, b01(safe), code))
 }
@@ -160,12 +160,12 @@ func (r *hubReader) AllowWaitingForTrust(string) bool { return false }
 type inertMdns struct{ log *obsLog }
 
 func (m *inertMdns) Start(api.MdnsReportInterface) error { return nil }
-func (m *inertMdns) Shutdown()                            { m.log.add("mshut") }
-func (m *inertMdns) AnnounceMdnsEntry() error             { m.log.add("mann"); return nil }
-func (m *inertMdns) UnannounceMdnsEntry()                 {}
-func (m *inertMdns) SetAutoAccept(b bool)                 { m.log.add("mauto:" + b01(b)) }
-func (m *inertMdns) QRCodeText() string                   { return "" }
-func (m *inertMdns) RequestMdnsEntries()                  { m.log.add("mreq") }
+func (m *inertMdns) Shutdown()                           { m.log.add("mshut") }
+func (m *inertMdns) AnnounceMdnsEntry() error            { m.log.add("mann"); return nil }
+func (m *inertMdns) UnannounceMdnsEntry()                {}
+func (m *inertMdns) SetAutoAccept(b bool)                { m.log.add("mauto:" + b01(b)) }
+func (m *inertMdns) QRCodeText() string                  { return "" }
+func (m *inertMdns) RequestMdnsEntries()                 { m.log.add("mreq") }
 
 var hubErr = errors.New("handshake failed")
 
